@@ -93,7 +93,7 @@ def step (m : List KV) (j : Json) : List KV × Json :=
       -- n keys p ++ 5-digit decimal index, written by one bulk write (volume case: prefix deletes
       -- work in blocks of 10000 keys on some drivers)
       let sets : List KV := (List.range n).map fun i => (p ++ fillSuffix i, [120])
-      let r := Grip.C10.step m (.bulk sets false); (r.1, jObs r.2)
+      let r := Grip.C10.step m (.bulk sets ((bool? j "fail").getD false)); (r.1, jObs r.2)
     | some "count", some p, _ =>
       let l := SMap.withPrefix m p
       (m, Json.mkObj [("n", .num ⟨l.length, 0⟩),
